@@ -19,11 +19,11 @@ from .. import tlc, worlds
 
 LEVEL = "model_checking"
 
-MESH3 = [(4, 4, 4), (5, 5, 5), (6, 6, 6), (3, 3, 3), (2, 3, 4), (4, 5, 6), (4, 4, 2), (6, 6, 4)]
-MESH2 = [(4, 4), (5, 5), (6, 6), (8, 8), (4, 6), (3, 5), (7, 7), (2, 9)]
-MESH3_T = MESH3 + [(8, 8, 8), (7, 7, 7), (6, 8, 8), (5, 6, 8), (1, 1, 6), (2, 2, 7), (8, 4, 2), (3, 6, 5),
+MESH3 = [(4, 4, 4), (5, 5, 5), (6, 6, 6), (2, 3, 4), (4, 5, 6), (4, 4, 2)]
+MESH2 = [(4, 4), (5, 5), (6, 6), (8, 8), (4, 6), (3, 5)]
+MESH3_T = MESH3 + [(3, 3, 3), (6, 6, 4), (8, 8, 8), (7, 7, 7), (6, 8, 8), (5, 6, 8), (1, 1, 6), (2, 2, 7), (8, 4, 2), (3, 6, 5),
                    (7, 7, 2), (6, 5, 4), (1, 5, 5), (8, 8, 3)]
-MESH2_T = MESH2 + [(12, 12), (9, 9), (10, 4), (1, 8), (11, 3), (6, 10), (5, 12), (16, 16)]
+MESH2_T = MESH2 + [(7, 7), (2, 9), (12, 12), (9, 9), (10, 4), (1, 8), (11, 3), (6, 10), (5, 12), (16, 16)]
 
 # lattice families beyond worlds.LATTICES (integer metrics): centred cells in their primitive description
 def _gram(vecs):
@@ -172,14 +172,14 @@ def run(ctx):
         if w["D"] == 1:
             continue                                 # bare lattices are already in
         ml = m3 if w["dim"] == 3 else m2
-        pick = [ml[0], ml[1], rng.choice(ml[4:])] if quick else rng.sample(ml, 8)
+        pick = [rng.choice(ml[:3]), rng.choice(ml[3:])] if quick else rng.sample(ml, 8)
         wl.append((dict(w, name=name), w["name"], pick))
     for i in range(8 if quick else 40):               # random integer lattices ("all systems")
         d = 3 if i % 4 else 2
         ml = m3 if d == 3 else m2
         w = lattice_world("rnd%dd" % d, random_lattice(rng, d))
-        wl.append((w, "rnd%dd" % d, rng.sample(ml, 4 if quick else 8)))
-    for i in range(10 if quick else 60):              # random decorations: smaller point groups
+        wl.append((w, "rnd%dd" % d, rng.sample(ml, 3 if quick else 8)))
+    for i in range(8 if quick else 60):               # random decorations: smaller point groups
         w = worlds.random_world(rng, maxatoms=3)
         ml = m3 if w["dim"] == 3 else m2
         fam = w["name"].split("-")[1]
